@@ -464,7 +464,10 @@ def exec_job(args):
     out = {'index': index, 'seed': seed, 'harness_error': None, 'violation': None}
     t0 = time.monotonic()
     try:
-        res = run_job_spec(job, variants)
+        # every eighth job runs all its variants in pristine forked children from the start, as a
+        # standing cross-check of the in-process mode (which could only ever hide a difference if
+        # state leaking between runs made a variant look like the baseline)
+        res = run_job_spec(job, variants, mode='fork' if index % 8 == 0 else None)
     except ServerError as e:
         out['harness_error'] = str(e)
         return out
@@ -480,6 +483,7 @@ def exec_job(args):
     out['sorted_obs'] = sibling_order_observation(res['baseline_data']) if res.get('baseline_data') else None
     out['wall'] = time.monotonic() - t0
     out['inproc_only'] = res.get('inproc_only')
+    out['fork_mode'] = index % 8 == 0
     if res['mismatches']:
         out['violation'] = res['mismatches'][0]
         out['n_mismatches'] = len(res['mismatches'])
